@@ -6,6 +6,7 @@ from rules import returned_directly
 from props.C04 import call_results
 
 META = {
+    "explanation_r6": 'Also (round 6): the vault gate is decided on the computed return form, so a forwarded `return try_deserialize_record(..)` of an error-path arm counts as a return of Ok.',
     "explanation_more": "Also (round 4): every version a holder answered with is recorded and kept for the split decision (C05.versions.* as C15.received.*); every chunk the data map lists is fetched and a fetched chunk's address is recomputed from its bytes (C14 / C12 rules as C15.content.*). Also (round 5): no finished chunk download can be dropped by the concurrency helper (C15.content.tasks.all.results).",
     "explanation": "Decides: (1) in Client::chunk_get the requested address reaches a comparison with the address of the deserialised chunk whose "
                    "equal side is the only way to Ok(chunk) (and Chunk's address is recomputed from its bytes on decode); (2) in "
